@@ -609,6 +609,14 @@ impl FormatSpec {
         };
         let sign_prefix = format!("{sign_str}{prefix}");
         let magnitude_str = self.add_magnitude_separators(raw_magnitude_str, &sign_prefix);
+        if let Some(FormatType::Character) = self.format_type {
+            // the one rendering that need not be ASCII: the width counts characters, not bytes
+            let character = TruncatedStr {
+                inner: &magnitude_str,
+                char_len: magnitude_str.chars().count(),
+            };
+            return self.format_sign_and_align(&character, &sign_prefix, FormatAlign::Right);
+        }
         self.format_sign_and_align(
             &AsciiStr::new(&magnitude_str),
             &sign_prefix,
